@@ -648,7 +648,17 @@ class BoolFlow:
         if c is not None:
             return c if c in (0, 1) else ("I", c)
         pl = op_place(op)
-        if pl is None or pl["p"]:
+        if pl is None:
+            return None
+        if pl["p"]:
+            # payload of an enum value whose variant (and payload) is known: `(r as Ok).0`, `(cf as Continue).0`
+            ps = [p for p in pl["p"] if p != "*"]
+            if len(ps) == 2 and isinstance(ps[0], dict) and "dc" in ps[0] and isinstance(ps[1], dict) and ps[1].get("f") == 0:
+                x = st.get(pl["l"])
+                if isinstance(x, tuple) and x[0] == "R":
+                    x = st.get(x[1])
+                if isinstance(x, tuple) and x[0] == "V" and len(x) > 3 and x[1] == ps[0]["dc"]:
+                    return x[3]
             return None
         return st.get(pl["l"])
 
@@ -674,7 +684,8 @@ class BoolFlow:
             v = None if x is None else 1 - x
         elif rv["k"] == "agg" and rv.get("ak") == "adt" and rv.get("is_enum") and rv.get("variant") is not None:
             # which variant an enum local holds (Ok / Err / Some / None ...): lets `.is_ok()` and `match` be followed
-            v = ("V", rv["variant"], rv.get("vi"))
+            pay = self._val(st, rv["a"][0]) if len(rv.get("a", [])) == 1 else None
+            v = ("V", rv["variant"], rv.get("vi"), pay if pay in (0, 1) else None)
         elif rv["k"] in ("ref", "rawptr") and not rv["place"]["p"]:
             v = ("R", rv["place"]["l"])
         elif rv["k"] == "discr" and not [p for p in rv["place"]["p"] if p != "*"]:
@@ -761,7 +772,7 @@ class BoolFlow:
                             x = st.get(x[1])
                         if isinstance(x, tuple) and x[0] == "V":
                             if cal == "Try::branch":
-                                st[d["l"]] = ("V", "Continue", 0) if x[1] in ("Ok", "Some") else ("V", "Break", 1)
+                                st[d["l"]] = ("V", "Continue", 0, x[3] if len(x) > 3 else None) if x[1] in ("Ok", "Some") else ("V", "Break", 1, None)
                             else:
                                 st[d["l"]] = x
                     tst = self._TESTS.get(cal)
